@@ -29,7 +29,7 @@ def baseline_tests():
 if not os.path.exists(REPO + "/_build"):
     subprocess.run("cmake -G Ninja -B %s/_build -S %s -DCMAKE_BUILD_TYPE=RelWithDebInfo > /dev/null" % (REPO, REPO), shell=True)
 BASE = baseline_tests(); say("baseline tests:", BASE)
-killed = survived = test_killed = invalid = 0
+killed = survived = test_killed = invalid = killed_other = 0
 for n in range(N):
     prop = rng.choice(props)
     files = [f for f in P[prop]["anchors"]["files"] if (f.endswith(".cc") or f.endswith(".hh")) and os.path.isfile(REPO + "/" + f) and not f.startswith("cli/")]
@@ -64,7 +64,16 @@ for n in range(N):
         if tr != BASE:
             test_killed += 1; say("TESTS    %s   (silent check, but the repository's own tests change: %s)" % (tag, tr[:80]))
         else:
-            survived += 1; d = subprocess.run(["git", "-C", REPO, "diff"], stdout=subprocess.PIPE, text=True).stdout
-            open(OUT + "/survivors/%s-%d-%d.diff" % (prop, seed, n), "w").write(d); say("SURVIVED %s" % tag)
+            # silent for the drawn property and for the tests: is it reported by another check anchored in the same file?
+            other = None
+            for q in sorted(P):
+                if q == prop or q in ("C19", "C20") or f not in P[q]["anchors"]["files"]: continue
+                r2 = subprocess.run(["/verif/check", q], env=env, stdout=subprocess.PIPE, stderr=subprocess.STDOUT, text=True)
+                if r2.returncode == 1: other = (q, re.findall(r"key=(\S+)", r2.stdout)[:2]); break
+            if other:
+                killed_other += 1; say("KILLED-BY-OTHER %s   %s %s" % (tag, other[0], other[1]))
+            else:
+                survived += 1; d = subprocess.run(["git", "-C", REPO, "diff"], stdout=subprocess.PIPE, text=True).stdout
+                open(OUT + "/survivors/%s-%d-%d.diff" % (prop, seed, n), "w").write(d); say("SURVIVED %s" % tag)
     subprocess.run(["git", "-C", REPO, "checkout", "-q", "--", "."])
-say("summary seed=%d props=%s: killed=%d killed-by-tests-only=%d survived=%d invalid=%d" % (seed, props, killed, test_killed, survived, invalid))
+say("summary seed=%d props=%s: killed=%d killed-by-another-check=%d killed-by-tests-only=%d survived=%d invalid=%d" % (seed, props, killed, killed_other, test_killed, survived, invalid))
